@@ -64,7 +64,7 @@ def check(ctx) -> None:
     ctx.rule("C18.module-body", "every cst.Module(body=...) built by the writer lists the import statements before the code that uses the imported names (sys before the alias binding, random/pytest before the seed patch and fixture, SUT and exception imports before the test functions)", floor=6)
     ctx.rule("C18.exc-import", "every exception class named in pytest.raises(...) is recorded and imported unless it is a builtin - no other exclusion", floor=3)
     ctx.rule("C18.namespace-agree", "the statement re-execution namespace and the rendered import bind the same SUT names (one shared helper)", floor=2)
-    ctx.rule("C18.public-names", "ABSINT: _public_sut_names lists every public attribute of the module (imported names included) except the module alias, sorted", floor=1)
+    ctx.rule("C18.public-names", "ABSINT: _public_sut_names yields only attributes of the module, each once, and never the module alias (the rendered from-import must succeed and must not rebind the alias)", floor=1)
     _public_names(ctx, repo)
     ctx.rule("C18.enum-import", "ABSINT + def-use: the writer has a collector that, interpreted over asserted values (enum members bare and nested in list / tuple / set / dict keys and values), yields every enum class the rendering names; write applies it to the asserted value of every assertion and what it yields feeds the emitted from-imports", floor=8)
     _enum_imports(ctx, repo)
@@ -313,12 +313,16 @@ def _public_names(ctx, repo) -> None:
     mod.LIMIT = 3
     mod._private = 5
     want = sorted(n for n in dir(mod) if not n.startswith("_") and n != "module_0")
+    own_defined = ["LIMIT", "own"]  # names the module defines itself; names it imported are bound by the enum / exception imports when the rendered code needs them
     try:
         got = peval.Interp(resolver=peval.repo_resolver(repo), native_types=(_types.ModuleType,)).run_function(fn, [mod, "module_0"], {}, repo.module(EX))
     except (peval.Undecided, peval.Raises) as exc:
         ctx.undecide("C18.public-names", fn, str(exc))
         return
-    ctx.check("C18.public-names", fn, list(got) == want, f"_public_sut_names yields {list(got)}, the public names of the module are {want}: a name that the rendered code uses by its bare name (an enum class the module imported, e.g. `HTTPStatus.OK`) is not imported by the written file (NameError under pytest)", what=f"public names = {want}", stmt="[public names]")
+    # necessary for the rendered `from <module> import <names>` line: every name is an attribute of the module (else the
+    # whole test file fails to import) and the alias is not rebound; which further names are listed is not prescribed -
+    # what rendered code names bare (enum and exception classes) is imported separately
+    ctx.check("C18.public-names", fn, "module_0" not in got and set(got) <= set(dir(mod)) and len(list(got)) == len(set(got)), f"_public_sut_names yields {list(got)} for a module with the attributes {want} bound under the alias module_0: a listed name that is not an attribute makes `from <module> import ...` fail (every test of the file fails at import), the alias among the names rebinds it", what=f"names are attributes of the module, alias excluded: {list(got)}", stmt="[public names]")
 
 
 def _enum_imports(ctx, repo) -> None:
